@@ -204,10 +204,11 @@ Provision(dU) ==
                     g   == GhostPassOne(p[3], p[4], "U", en1["U"], dU)
                 IN /\ ent' = [en1 EXCEPT !["U"] = PassOne(en1["U"], dU)]
                    /\ accepted' = g[1] /\ verified' = g[2]
-                   /\ out' = Ghost([kind |-> "provision", ok |-> TRUE, loaded |-> Loaded(ent'), listed |-> <<>>, inforce |-> <<>>,
+                   /\ out' = Ghost([kind |-> "provision", ok |-> TRUE, acceptable |-> TRUE, loaded |-> Loaded(ent'), listed |-> <<>>, inforce |-> <<>>,
                                     fetch |-> [Fet0 EXCEPT !["U"] = p[5] + (IF PassFetch(en1["U"], dU) THEN 1 ELSE 0)]])
            ELSE /\ ent' = [p[2] EXCEPT !["U"] = [@ EXCEPT !.present = FALSE]] /\ accepted' = p[3] /\ verified' = p[4]
-                /\ out' = Ghost([kind |-> "provision", ok |-> FALSE, loaded |-> Loaded(ent'), listed |-> <<>>, inforce |-> <<>>,
+                /\ out' = Ghost([kind |-> "provision", ok |-> FALSE, acceptable |-> (~CrlOn \/ Cfg.conf = "none" \/ PolicyAccepts(dU, Trusted)),
+                                 loaded |-> Loaded(ent'), listed |-> <<>>, inforce |-> <<>>,
                                  fetch |-> [Fet0 EXCEPT !["U"] = p[5]]])
   /\ Emit(<<"provision", dU>>, out')
 
@@ -333,6 +334,8 @@ Promise(c, en) ==
       r == IF CrlOn THEN CrlVerdict(c, en) ELSE "accept"
   IN IF o # "accept" THEN o ELSE r
 ModePromise == [][\A c \in Certs : HS(c) => out'.verdict = Promise(c, ent')]_vars
+\* C16/C19: a configured CRL that is acceptable under the signature mode never makes Provision fail
+ProvisionAcceptsAcceptable == [][(out'.kind = "provision" /\ ~out'.ok) => ~out'.acceptable]_vars
 ProvisionLoads == (phase = "up" /\ CrlOn /\ Cfg.conf # "none") => (ent["U"].present /\ ent["U"].loaded)
 View == <<cfg, phase, ent, bg, accepted, verified, known>>
 TypeOK == phase \in {"new", "up", "failed"} /\ bg \in BOOLEAN
